@@ -57,6 +57,14 @@ Theorem C02_recursion_depth_tied : GenLoop.fin_child_depth_inc = 1 /\ GenLoop.fi
 Proof. exact gen_depth_incs_agree. Qed.
 Print Assumptions C02_recursion_depth_tied.
 
+(* The machine's slot-map cursor stays inside SlotMap::m_slot_map for every sequence of NEXT / INSERT steps over a map of any admissible
+   size: the extent of the array (regenerated from src/inc/Rule.h), the guard of NEXT (src/inc/opcodes.h) and MAX_SLOTS leave room for
+   the position one past a full map, where the interpreter stores the current slot when the action ends. *)
+Theorem C02_map_cursor_in_bounds : forall os size i j, size <= GenLoop.max_slots -> i <= size + 1 -> cur_run size i os = Some j ->
+  j < GenLoop.max_slots + GenLoop.slot_map_extra.
+Proof. exact map_cursor_in_bounds. Qed.
+Print Assumptions C02_map_cursor_in_bounds.
+
 (* The glyph-attribute store (graphite2::sparse): whatever (key, value) pairs it was built from, operator[] reads inside its array
    for EVERY 16-bit key — the branch-free arithmetic never indexes outside the chunk table plus the packed values. *)
 Theorem C02_sparse_lookup_in_bounds : forall ps s k, build ps = Some s -> lookup s k <> None.
